@@ -533,7 +533,8 @@ Lemma new_unwrapper_disabled f d b ra ps inv :
             low_bits_to_drop u = d /\ sign_mask u = make_sign_mask f /\ enable u = false /\
             invert_data u = inv.
 Proof.
-  unfold new_unwrapper. rewrite !andb_false_r. eexists. split; [reflexivity|]. cbn. auto.
+  unfold new_unwrapper. rewrite !andb_false_r. eexists. split; [reflexivity|].
+  cbn [low_bits_to_drop sign_mask enable invert_data]. repeat split; reflexivity.
 Qed.
 
 Lemma disabled_output p u xs :
